@@ -555,14 +555,59 @@ _TAB_AFTER_SPACE = re.compile(r"(?:^\ufeff?|[\r\n])[ \t\f]* \t")
 
 
 def tab_after_space_lines(text):
-    """Number of lines whose leading blank run has a tab after a space (counts lines inside string literals too)."""
-    return len(_TAB_AFTER_SPACE.findall(text))
+    """Number of physical lines whose *indentation* has a tab after a space: lines at bracket depth 0 that are not
+    inside a multi-line string and do not continue a backslash-joined line (leading blanks of other lines are not
+    indentation). Decided on the reference tokenizer's view; if that is unavailable (CR line endings, tokenize error)
+    the conservative count of all lines with such a leading blank run is used."""
+    hits = [m.start() + (1 if text[m.start():m.start() + 1] in "\r\n" else 0) for m in _TAB_AFTER_SPACE.finditer(text)]
+    if not hits:
+        return 0
+    if "\r" in text:
+        return len(hits)
+    import io
+    import token as T
+    import tokenize
+    try:
+        toks = list(tokenize.generate_tokens(io.StringIO(text).readline))
+    except (tokenize.TokenError, SyntaxError, IndentationError, ValueError):
+        return len(hits)
+    lines = text.split("\n")
+    starts = [0]
+    for ln in lines:
+        starts.append(starts[-1] + len(ln) + 1)
+    not_indent = set()   # physical rows (1-based) whose leading blanks are not indentation
+    depth = 0
+    prev = None
+    for t in toks:
+        if t.type == T.OP and t.string in "([{":
+            depth += 1
+        elif t.type == T.OP and t.string in ")]}":
+            depth -= 1
+        if t.start[0] != t.end[0]:
+            # multi-line token (string): every row after its first
+            for r in range(t.start[0] + 1, t.end[0] + 1):
+                not_indent.add(r)
+        if prev is not None and t.start[0] > prev.end[0]:
+            # new physical row: continuation if inside brackets, or if the previous logical line has not ended
+            if depth_before > 0 or prev.type not in (T.NEWLINE, T.NL, T.COMMENT, T.INDENT, T.DEDENT):
+                for r in range(prev.end[0] + 1, t.start[0] + 1):
+                    not_indent.add(r)
+        depth_before = depth
+        prev = t
+    n = 0
+    for h in hits:
+        import bisect
+        row = bisect.bisect_right(starts, h)
+        if text.startswith("\ufeff") and h == 0:
+            row = 1
+        if row not in not_indent:
+            n += 1
+    return n
 
 
 def has_tab_after_space_indent(text):
-    """A tab following a space inside leading whitespace of some line (documented as intentionally stricter).
-    Conservative: any line whose leading blank run has a tab after a space."""
-    return _TAB_AFTER_SPACE.search(text) is not None
+    """A tab following a space inside the indentation of some line (documented as intentionally stricter)."""
+    return _TAB_AFTER_SPACE.search(text) is not None and tab_after_space_lines(text) > 0
 
 
 def version_dependent_identifiers(tree):
